@@ -74,6 +74,15 @@ def build_doc(case):
             elif not any(s.get("sub") == "utf8-spelling" for s in secrets):
                 twin = {"cls": "j9", "plain": base["plain"].encode("utf-8").decode("latin-1"), "text": None, "cores": [],
                         "plain_class": "latin1", "sub": "utf8-spelling"}
+        if twin is None and c == "j9" and rng.random() < 0.15:
+            # a $9$ plaintext that differs from an earlier one only by an enclosing character at its edge: another secret
+            base = next((s for s in secrets if s["cls"] == "j9" and s.get("plain_class", "text") == "text" and s.get("plain")), None)
+            if base is not None:
+                for t in rng.sample([base["plain"] + ";", '"' + base["plain"] + '"', base["plain"] + ",", "'" + base["plain"], base["plain"] + " ",
+                                     "[" + base["plain"] + "]", base["plain"] + "}"], 7):
+                    if all(t != s.get("plain") for s in secrets):
+                        twin = {"cls": "j9", "plain": t, "text": None, "cores": [], "plain_class": "edge", "sub": "enclosing-char-at-edge"}
+                        break
         if twin is None and c == "j9":
             twin = S.gen_secret(rng, "j9", plain_class=rng.choice([None, None, "numeric", "hex"]))
         secrets.append(twin or S.gen_secret(rng, c, plain_alpha=True))
